@@ -19,6 +19,8 @@ def run_histories(o, ctx, tier, seed, tag, n_quick, n_thorough, flt=None, max_he
     t = "thorough" if tier in ("thorough", "search") else "quick"
     r = rng_for(seed, "conn-" + tag)
     n = n_quick if t == "quick" else n_thorough
+    if tier == "search":
+        n = max(n_quick, n_thorough // 4)      # the search after a changed skeleton / broken obligation: a quarter of the thorough budget
     lines, exps, metas = [], [], []
     tries = 0
     while len(lines) < n and tries < n * 20:
@@ -68,6 +70,46 @@ def run_histories(o, ctx, tier, seed, tag, n_quick, n_thorough, flt=None, max_he
                                      "why": f"transcript differs from the specification at item {k}: got {got[k] if k < len(got) else 'nothing'}, expected {e[k] if k < len(e) else 'nothing'} (request kinds {m['kinds']})"})
     o.extra["known_class_chunked_early_arrival_cases"] = known_hit
     return known_hit
+
+
+STD_METHODS = {b"GET", b"POST", b"HEAD", b"PUT", b"PATCH", b"DELETE", b"OPTIONS", b"TRACE", b"CONNECT"}
+
+
+def corpus_sweep(o, ctx, tier, seed, n_quick=2500, n_thorough=40000):
+    """Every request the guided generator knows, played as a whole connection: the request bytes in one segment, then the client's
+    half-close; what comes back (responses, end of connection) is compared with the Lean model of handle_connection.  The
+    corpus holds thousands of distinct request lines and header sections (all target forms, methods, versions, framing fields,
+    lengths …), so a special case for SOME request anywhere between the parser and the handler call — which none of the scripted
+    histories uses — shows up as a model/implementation disagreement."""
+    t = "thorough" if tier in ("thorough", "search") else "quick"
+    r = rng_for(seed, "conn-sweep")
+    fl = [l for l in fuzz_cases(o, ctx, "req", tier, seed) if l.startswith("REQ ")]
+    if not fl or not ctx.get("have_model"):
+        return
+    ans = C.run_sharded(ctx["kimpl"], fl)
+    acc = [l for l, a in zip(fl, ans) if a.startswith("OK")]
+    rej = [l for l, a in zip(fl, ans) if not a.startswith("OK")]
+    n = n_quick if t == "quick" else n_thorough
+    # stratified by (method, target form, version): a few of every shape first, the rest at random
+    strata = {}
+    for l, a in zip(fl, ans):
+        if a.startswith("OK"):
+            _, d_ = kv(a)
+            tt = unhex(d_.get("t", "e"))
+            form = "ast" if tt == b"*" else "abs" if b"://" in tt else "org" if tt.startswith(b"/") else "auth"
+            mm = unhex(d_.get("m", "e"))
+            strata.setdefault((mm if mm in STD_METHODS else b"custom", form, d_.get("v")), []).append(l)
+    first = [l for ls_ in strata.values() for l in ls_[:3]]
+    pick = first + r.sample(acc, min(len(acc), max(0, n * 4 // 5 - len(first)))) + r.sample(rej, min(len(rej), n // 5))
+    lines = ["CONN max=4096 script=s:%s,c,r,r,e" % l.split()[1] for l in pick if l.split()[1] != "e"]
+    impl = C.run_sharded(ctx["kimpl"], lines, shards=min(C.NCPU, 16))
+    model = C.run_sharded(ctx["kmodel"], lines)
+    for c, a, m in zip(lines, impl, model):
+        o.evaluations += 1
+        o.count("sweep:" + (a.split()[1].split(",")[0].split(":")[0] if len(a.split()) > 1 else "?"))
+        if a.split()[:2] != m.split()[:2] and len(o.mismatches) < 30:
+            o.mismatches.append({"case": c, "impl": a[:300], "model": m[:300]})
+    o.extra["corpus_sweep_connections"] = len(lines)
 
 
 def run_faults(o, ctx, tier, seed, n_quick, n_thorough):
@@ -173,6 +215,7 @@ def run_c07(o, ctx, tier, seed, replay=None):
         return
     run_histories(o, ctx, tier, seed, "c07", 400, 12000, stalls=10)
     run_faults(o, ctx, tier, seed, 40, 600)
+    corpus_sweep(o, ctx, tier, seed)
     # the same property in epoll mode (one-request jobs re-armed by readiness): keep-alive plans incl. "next request arrives
     # while the previous one is still being handled"
     from . import epoll as E
@@ -201,11 +244,12 @@ def run_c09(o, ctx, tier, seed, replay=None):
         return run_c07(o, ctx, tier, seed, replay)
     closing = {"closerep", "reqclose", "reqnoclose", "close", "err", "errint", "errclose", "errkind", "silent", "crlfpre", "hookstrip", "bigchunk", "hookdrop", "hookdropclose", "hookdropclosesend", "closeempty", "closer"}
     run_histories(o, ctx, tier, seed, "c09", 300, 10000, flt=lambda m: bool(closing & set(m["kinds"])), stalls=4)
+    corpus_sweep(o, ctx, tier, seed, 1500, 20000)
     # epoll mode decides persist / close through EpollJob::run: the same signals, plus the peer's half-close
     run_halfclose(o, ctx)
 
 
-register("C07", lean=["Khttp.Props.C07", "Khttp.Props.C07Skeleton", "Khttp.Props.C07BodySkeleton", "Khttp.Props.C14Skeleton"], run=run_c07, known_check=known_c07,
+register("C07", lean=["Khttp.Props.C07", "Khttp.Props.C14Skeleton"], soft_lean=["Khttp.Props.C07Skeleton", "Khttp.Props.C07BodySkeleton"], run=run_c07, known_check=known_c07,
          rule="CONN histories: 1-4 requests per connection over 15 handler behaviours (read all / k bytes / nothing, respond before reading, swallow errors, hook Drop, close tokens, errors, reader responses) "
               "x fixed/chunked bodies (extensions, trailers, Content-Length overridden by chunked) x head/body segmentations incl. 1-byte segments and 'rest of body together with the next request after the response'. "
               "distinct_nontrivial = distinct histories with >= 2 requests or a closing outcome.",
@@ -451,7 +495,7 @@ def run_c05(o, ctx, tier, seed, replay=None):
         hl = hdr_framing_lines(seed, t)
         # op sequences kept by the behaviour-guided generator that consist of added framing fields only
         from gen import hdr as H_
-        for fl in fuzz_cases(o, ctx, "hdr", t, seed):
+        for fl in fuzz_cases(o, ctx, "hdr", tier, seed):
             pl = H_.parse_line(fl)
             if pl and pl[0] and all(op[0] == "add" and op[1].lower() in (b"content-length", b"transfer-encoding", b"host", b"x-foo") for op in pl[0]) \
                     and all(all(c == 9 or 32 <= c <= 126 or c >= 128 for c in op[2]) for op in pl[0]):   # RFC field-value bytes only
@@ -497,12 +541,12 @@ def run_c05(o, ctx, tier, seed, replay=None):
 CONN_RULE = ("CONN histories (see C07) restricted to those containing a close-relevant request: Connection: close in 9 spellings/placements (case, comma lists, OWS incl. HTAB, repeated fields) and 6 look-alikes that are NOT close, "
              "handler response with connection: close, handler errors (Other and Interrupted), pre-routing Drop with/without close; observed: is the next request answered or is the connection at EOF. "
              "distinct_nontrivial = distinct histories with >= 2 requests or a closing outcome.")
-register("C09", lean=["Khttp.Props.C09", "Khttp.Props.C09Handle", "Khttp.Props.C07Skeleton", "Khttp.Props.C14Skeleton"], run=run_c09, rule=CONN_RULE,
+register("C09", lean=["Khttp.Props.C09", "Khttp.Props.C09Handle", "Khttp.Props.C14Skeleton"], soft_lean=["Khttp.Props.C07Skeleton", "Khttp.Props.C09HandleSkeleton"], run=run_c09, rule=CONN_RULE,
          assumptions=["lock-step client", "user handlers and hooks are parameters of the model (Cfg); handlers use the body reader through its public API"],
          explanation="Theorems (Props/C09): exact characterisation of the keep-alive decision of handle_one_request (handler path, hook-Drop path, rejected heads 400/431 with close, peer EOF), the close flag of an accepted request = "
                      "'some Connection field has a comma-separated element equal to close ignoring case and surrounding whitespace' (via C04 + C19), handle_connection stops at the first closing call and reads nothing afterwards, "
                      "fuel adequacy. Tie: control skeleton of handle_one_request / handle_connection (decide) + CONN correspondence. Oracle: is the next request answered or is the connection at EOF, per history.")
-register("C05", lean=["Khttp.Props.C05", "Khttp.Props.C07BodySkeleton"], run=run_c05,
+register("C05", lean=["Khttp.Props.C05"], soft_lean=["Khttp.Props.C07BodySkeleton"], run=run_c05,
          rule="CONN cases: the full product {14 Content-Length variants (absent, valid, OWS-padded, zero-padded, signed, non-numeric, list-valued, duplicated equal/different, overflow, empty, hex)} x {14 Transfer-Encoding variants "
               "(absent, chunked, CHUNKED, OWS-padded, gzip+chunked, chunked+gzip, gzip, split over lines both ways, trailing comma, empty, xchunked, repeated)} x field order x {body in the same / a later segment}, each followed by a probe request "
               "whose answer reveals where the server looked for the next request (quick: a random 55% of the cells). distinct_nontrivial = distinct cells with at least two framing fields.",
